@@ -110,6 +110,60 @@ def batch_flags(k):
     return []
 
 
+# ---- numbers at the edges of the 53-bit / 64-bit ranges (SortBig.tla) ---------------------------------------------
+BIG_COLLECT = "begin{@v=[]} @v[NR]=$x; "
+BIG_CMDS = {     # spelling of SortBig.tla's commands
+    "sort-nf": ["sort", "-nf", "x"], "sort-nr": ["sort", "-nr", "x"], "sort-f-nf": ["sort", "-f", "k", "-nf", "x"],
+    "top-max": ["top", "-n", "1", "-f", "x", "-a"], "top-min": ["top", "-n", "1", "-f", "x", "-a", "--min"],
+    "dsl-sort": ["put", "-q", BIG_COLLECT + "end{for (e in sort(@v)) {print e}}"],
+    "dsl-sort-nr": ["put", "-q", BIG_COLLECT + 'end{for (e in sort(@v, "nr")) {print e}}'],
+    "dsl-sort-func": ["put", "-q", BIG_COLLECT + "end{for (e in sort(@v, func(a,b) {return a <=> b})) {print e}}"],
+    "sort_collection": ["put", "-q", BIG_COLLECT + "end{for (e in sort_collection(@v)) {print e}}"],
+    "dsl-sort-map-by-value": ["put", "-q", "@m[NR]=$x; end{for (k,v in sort(@m, func(ak,av,bk,bv) {return av <=> bv})) {print v}}"],
+}
+
+
+def bignum(mlr, tier, seed, V, cov):
+    """Numeric sorting of values exactly representable as doubles near 2^53 and 2^63: TLC enumerates (command, list),
+    mlr runs them, SortBigObs judges (a permutation, in by-value order)."""
+    consts = {"ExLen": 2, "MaxLen": 4, "NSample": 60} if tier != "thorough" else {"ExLen": 3, "MaxLen": 5, "NSample": 1500}
+    cases, g = b3.gen_cases("SortBigGen", consts, timeout=3000, seed=seed)
+    runs = []
+    for k, x in enumerate(cases):
+        runs.append({"argv": [mlr] + batch_flags(k) + BIG_CMDS[x["c"]], "stdin": "".join("k=a,x=%s\n" % t for t in x["s"]),
+                     "timeout_ms": 10000})
+    res = vlib.run_cases(runs)
+    vlib.confirm_timeouts(runs, res)
+    obs = []
+    for x, r in zip(cases, res):
+        lines = [ln for ln in r["stdout"].split("\n") if ln != ""]
+        if x["c"].startswith(("sort-", "top-")):
+            out = [dict(p.partition("=")[::2] for p in ln.split(",")).get("x", "?") for ln in lines]
+        else:
+            out = lines
+        obs.append({"c": x["c"], "s": x["s"], "out": out, "exit": -2 if r["timed_out"] else r["exit"]})
+    bad, n = b3.validate("SortBigObs", obs, chunk=5000, threads=4)
+    for idx, why in bad:
+        V.violation({"family": "bignum", "cmd": obs[idx]["c"], "why": why.get("why")},
+                    {"argv": runs[idx]["argv"][1:], "input": obs[idx]["s"], "observed": obs[idx]["out"], "exit": obs[idx]["exit"],
+                     "stderr": res[idx]["stderr"][:300]})
+    badset = {i for i, _ in bad}
+    base = next((o for i, o in enumerate(obs) if i not in badset and o["c"] == "sort-nf" and len(set(o["out"])) >= 3
+                 and len({t for t in o["out"] if t not in ("5", "5.0", "4611686018427387904", "4611686018427387904.0")}) >= 2), None)
+    if base is None:
+        st = {"ok": None, "why": "no conforming observation to corrupt"}
+    else:
+        cor = dict(base, out=list(reversed(base["out"])))
+        sb, _ = b3.validate("SortBigObs", [cor, base])
+        st = {"ok": [b[0] for b in sb] == [0]}
+    cov["bignum"] = {"cases": len(cases), "consts": consts, "non_conforming": len(bad), "selftest_reversed_output": st,
+                     "universe": "12 texts exactly representable as doubles: +-(2^63+2048), +-2^63 (-2^63 an int, 2^63 a float), 2^62 as int and float, 2^53, 1e19, small ints"}
+    cov["tlc_runs"].append({"module": "SortBigGen", "consts": consts, "cases": len(cases), "wall_s": round(g.wall, 1)})
+    if st["ok"] is False:
+        raise vlib.Inconclusive("bignum self-test: a reversed sort output was not reported")
+    return g.distinct + n, len(cases)
+
+
 def run(tier, seed):
     t0 = time.time()
     V = vlib.Verdicts(PROP)
@@ -254,7 +308,10 @@ def run(tier, seed):
         transitions += r.generated
     pool.shutdown()
 
-    vlib.log("[c09] %.0fs: laws done" % (time.time() - t0))
+    bn_states, bn_cases = bignum(mlr, tier, seed, V, cov)
+    states += bn_states
+    transitions += bn_states
+    vlib.log("[c09] %.0fs: laws and bignum family done" % (time.time() - t0))
     # ---- non-vacuity: a reversed output of a conforming 24-record lexical sort must be reported
     badset = {idx for idx, _ in bad}
     cand = [slim(o) for i, o in enumerate(obs)
